@@ -8,13 +8,21 @@ oracle; it takes no part in the comparison with the model).  Request 0 is
 the observing request whose deliveries (response future, callbacks, errbacks, _stop_interest) are
 logged in program order next to the datagrams and pipe events msglayer.Runner already logs.
 `time` as seen from aiocoap.protocol is the virtual loop's clock.
+
+Round 4: the observing request need not be the first one submitted (`"obs_token"` / `"obs_mid"` of the script name
+its token / message ID when other requests were submitted before it); `"tuning0": kind` makes request 0 carry its
+transport tuning the way applications pass it (the class `aiocoap.Reliable` / `aiocoap.Unreliable`, the harness's
+tuning as a class, with OBSERVATION_RESET_TIME set ...).  Further requests of the script (`S` events with r > 0) are
+judged too: a transport failure reported for a peer -- an `E` event, or a confirmable request to it running out of
+retransmissions, which the oracle reads off the wire -- fails every request outstanding to that peer, the observation
+included, exactly once, and no request to another peer.
 """
 import asyncio
 import logging
 
 import msglayer
 import vloop
-from c07_pipe import EXC_NAMES, RFC_RESET_TICKS, rfc_fresher, is_notification
+from c07_pipe import EXC_NAMES, RFC_RESET_TICKS, rfc_fresher, is_notification, tuned_reset_ticks
 
 TOKEN = "21"          # pinned token counter 32 -> first token 33
 REQ_MID = 4096
@@ -42,8 +50,42 @@ class ObsRunner(msglayer.Runner):
         obs = "-" if m.opt.observe is None else str(m.opt.observe)
         return f"{int(m.code)}:{obs}:{int(m.payload.decode() or 0)}"
 
+    def tuning_as_passed(self, kind, inst):
+        """`inst` is the tuning instance the shared runner builds for the S event (a subclass of TransportTuning
+        carrying MAX_RETRANSMIT / reliability / time-outs of the script); `kind` says how the application passes it"""
+        import aiocoap
+        if kind in (None, "instance"):
+            return inst
+        if kind == "class":
+            return type(inst)                       # the class itself, as `aiocoap.Reliable` is passed
+        if kind == "library-class":
+            # aiocoap.Reliable / aiocoap.Unreliable: the script's S event must use the default constants
+            assert inst.MAX_RETRANSMIT == 4 and inst.reliability is not None, "script: library-class needs defaults"
+            return aiocoap.Reliable if inst.reliability else aiocoap.Unreliable
+        if kind[0] == "reset":
+            return type("ResetTuning", (type(inst),), {"OBSERVATION_RESET_TIME": kind[1]})()
+        if kind[0] == "class-reset":
+            return type("ResetTuning", (type(inst),), {"OBSERVATION_RESET_TIME": kind[1]})
+        raise AssertionError(kind)
+
     def do_S(self, ev):
-        super().do_S(ev)
+        kind = self.script.get("tuning0") if ev[2] == 0 else None
+        if kind is None:
+            super().do_S(ev)
+        else:
+            # the shared runner (harness/msglayer.py) builds `aiocoap.Message(..., transport_tuning=T())`; for the time
+            # of that call the harness's own view of the constructor hands the tuning on in the application's way
+            import aiocoap
+            real = aiocoap.Message
+
+            def message(*a, transport_tuning=None, **kw):
+                return real(*a, transport_tuning=self.tuning_as_passed(kind, transport_tuning), **kw)
+
+            aiocoap.Message = message
+            try:
+                super().do_S(ev)
+            finally:
+                aiocoap.Message = real
         r = ev[2]
         if r != 0:
             return
@@ -134,25 +176,29 @@ class ObsRunner(msglayer.Runner):
             P.time = saved
 
 
+def canon_group(g):
+    ds = [x[2:] for x in g if x.startswith("D:")]
+    ds.sort(key=lambda d: 0 if d.startswith(("resp:", "rexc:")) else 1)   # stable
+    rest = [x for x in g if not x.startswith("D:")]
+    return rest + ["D%02d:%s" % (i, d) for i, d in enumerate(ds)]
+
+
 def run_stack(script):
     __import__("common").quiet(logging.getLogger("coap-server"))
     __import__("common").quiet(logging.getLogger("coap"))
     r = ObsRunner(script)
     _, loop = vloop.run(r.main, max_time=1e7)
-    groups, concrete, ticks = [[]], [], []
+    groups, concrete, ticks, timed = [[]], [], [], [[]]
     for kind, text, tick in r.log:
         if kind == "in":
             groups.append([])
+            timed.append([])
             concrete.append(text)
             ticks.append(tick)
         else:
             groups[-1].append(text)
-    canon = []
-    for g in groups:
-        ds = [x[2:] for x in g if x.startswith("D:")]
-        ds.sort(key=lambda d: 0 if d.startswith(("resp:", "rexc:")) else 1)   # stable
-        rest = [x for x in g if not x.startswith("D:")]
-        canon.append(rest + ["D%02d:%s" % (i, d) for i, d in enumerate(ds)])
+            timed[-1].append((text, tick))
+    canon = [canon_group(g) for g in groups]
     times = [int(c.split("@")[1].split(":")[0]) for c in concrete]
     cfg = msglayer.default_cfg()
     draws_used = [vloop.ticks(v) for (_, _, v) in r.pins.uniform_calls]
@@ -162,6 +208,7 @@ def run_stack(script):
         "concrete": concrete,
         "groups": canon,
         "impl_line": "|".join(";".join(sorted(g)) for g in canon),
+        "timed": timed,
         "args": args,
         "same_tick_inputs": len(set(times)) != len(times),
         "loop_exceptions": [str(c.get("exception") or c.get("message")) for c in loop.exceptions],
@@ -179,6 +226,108 @@ def _parse_in(tok):
     k, rest = tok.split("@", 1)
     f = rest.split(":")
     return k, int(f[0]), f[1:]
+
+
+def obs_ids(script):
+    """(token, message ID, S event) of the observing request (request 0)"""
+    s0 = next(e for e in script["events"] if e[0] == "S" and e[2] == 0)
+    return script.get("obs_token", TOKEN), script.get("obs_mid", REQ_MID), s0
+
+
+def timeouts_on_the_wire(script, res):
+    """[(tick, remote)]: moments at which a confirmable request of ours has run out of retransmissions, read off the
+    wire and the script alone: it was transmitted 1 + MAX_RETRANSMIT times at doubling intervals, and neither an ACK
+    nor a RST for its message ID arrived from that peer (nor did a transport error / shutdown / cancellation end
+    the exchange) until twice the last interval after the last transmission (RFC 7252 section 4.2)."""
+    subs = sorted((e for e in script["events"] if e[0] == "S"), key=lambda e: e[1])
+    maxretr = {"%x" % (script.get("token", 32) + 1 + k): e[11] for k, e in enumerate(subs)}
+    tx = {}
+    for g in res["timed"]:
+        for text, tick in g:
+            if text.startswith("s@"):
+                f = text.split(":")
+                remote, mtype, code, mid, tok = f[1], f[2], int(f[3]), int(f[4]), f[5]
+                if mtype == "CON" and 1 <= code < 32:
+                    tx.setdefault((remote, mid, tok), []).append(tick)
+    enders = []
+    for tok in res["concrete"]:
+        k, t, f = _parse_in(tok)
+        if k == "R" and f[2] in ("ACK", "RST"):
+            enders.append((t, f[0], int(f[4])))
+        elif k == "E":
+            enders.append((t, f[0], None))
+        elif k in ("X", "C"):
+            enders.append((t, None, None))
+    out = []
+    d0 = msglayer.default_cfg()["ackTimeout"]
+    for (remote, mid, tok), ticks in tx.items():
+        mr = maxretr.get(tok)
+        if mr is None or len(ticks) != mr + 1:
+            continue
+        give_up = ticks[-1] + (2 * (ticks[-1] - ticks[-2]) if mr >= 1 else (script.get("draws") or [d0])[0])
+        if any(t <= give_up and (r is None or r == remote) and (m is None or m == mid) for (t, r, m) in enders):
+            continue
+        out.append((give_up, remote))
+    return sorted(out)
+
+
+def timeline(script, res):
+    """[(input token, canonical group)] with a synthetic input `TO@tick:remote` at every moment a confirmable request
+    ran out of retransmissions: what the implementation did from that tick on (until the next input) is its group"""
+    tl = []
+    tos = timeouts_on_the_wire(script, res)
+    for tok, g in zip(res["concrete"], res["timed"][1:]):
+        t0 = _parse_in(tok)[1]
+        parts = [(tok, [x for x in g])]
+        for (tt, remote) in tos:
+            cur = parts[-1][1]
+            if tt >= t0 and any(tick >= tt for _, tick in cur) and all(tick >= t0 for _, tick in cur):
+                nxt = [(x, tick) for x, tick in cur if tick >= tt]
+                if nxt and not any(p[0] == f"TO@{tt}:{remote}" for p in parts):
+                    parts[-1] = (parts[-1][0], [(x, tick) for x, tick in cur if tick < tt])
+                    parts.append((f"TO@{tt}:{remote}", nxt))
+        tl += [(k, canon_group([x for x, _ in g2])) for k, g2 in parts]
+    return tl
+
+
+def oracle_other_requests(script, tl):
+    """the application's other requests (r > 0): a transport failure reported for a peer fails every request
+    outstanding to that peer exactly once with that error, and no request to any other peer"""
+    outstanding = {}        # r -> remote
+    for tok, g in tl:
+        k, t, f = _parse_in(tok)
+        fails = {}
+        for x in g:
+            if x.startswith("f:"):
+                _, r, name = x.split(":", 2)
+                fails.setdefault(int(r), []).append(name)
+        if k == "S" and f[0] != "0" and f[2] == "0":
+            outstanding[int(f[0])] = f[1]
+        if k in ("E", "TO"):
+            name = "NetworkError" if k == "E" else "ConRetransmitsExceeded"
+            for r, remote in sorted(outstanding.items()):
+                got = fails.get(r, [])
+                if remote == f[0] and got != [name]:
+                    return (f"{tok}: request {r} is outstanding to the peer the transport failure is reported for; it "
+                            f"must fail once with {name}, got {got}"), "other-request-not-failed"
+                if remote != f[0] and got:
+                    return (f"{tok}: request {r} to peer {remote} failed with {got} on a transport failure of peer "
+                            f"{f[0]}"), "other-request-hit"
+            for r, remote in list(outstanding.items()):
+                if remote == f[0]:
+                    del outstanding[r]
+        else:
+            for r, names in fails.items():
+                if r != 0 and [n for n in names if n in ("NetworkError", "ConRetransmitsExceeded")]:
+                    return f"{tok}: request {r} failed with {names} without a transport failure", "other-request-hit"
+        for x in g:
+            if x.startswith("r:") and x.split(":")[2] == "1":
+                outstanding.pop(int(x.split(":")[1]), None)
+            elif x.startswith("f:"):
+                outstanding.pop(int(x.split(":")[1]), None)
+        if k in ("X", "C"):
+            outstanding.clear() if k == "X" else outstanding.pop(int(f[0]), None)
+    return "", None
 
 
 def oracle_stack(script, res):
@@ -199,13 +348,21 @@ def oracle_stack(script, res):
     loose = any(c.startswith(("OC@", "C@")) for c in res["concrete"])
     if loose:
         return oracle_stack_app(script, res)
+    OBS_TOKEN, OBS_MID, s0 = obs_ids(script)
+    obs_remote = str(s0[3])
+    reset = tuned_reset_ticks(script.get("tuning0"), RFC_RESET_TICKS)
+    multi = any(e[0] == "S" and e[2] != 0 for e in script["events"])
+    tl = timeline(script, res)
+    v, key = oracle_other_requests(script, tl)
+    if v:
+        return v, key
     registered = False     # the token is outstanding
     established = False
     got_first = False
     over = False
     last = None
     ebs = 0
-    for tok, g in zip(res["concrete"], res["groups"][1:]):
+    for tok, g in tl:
         k, t, f = _parse_in(tok)
         # `stop` (the runner withdrawing from the pipe) is not something the application sees
         dels = [x.split(":", 1)[1] for x in g if x.startswith("D") and not x.endswith(":stop")]
@@ -219,14 +376,12 @@ def oracle_stack(script, res):
             if [x for x in kinds if x in ("cb", "eb", "resp", "rexc")]:
                 return f"{tok}: delivery {kinds}", "after-cancel"
             continue
-        if loose:
-            # application interfered: only "no callback once it cancelled" is claimed
-            continue
-        if k == "X" or (k == "E" and f[0] == "0"):
-            name = "LibraryShutdown" if k == "X" else "NetworkError"
+        if k == "X" or (k in ("E", "TO") and f[0] == obs_remote):
+            name = {"X": "LibraryShutdown", "E": "NetworkError", "TO": "ConRetransmitsExceeded"}[k]
             idx = EXC_NAMES.index(name)
             if registered and not over:
-                # "... and with a network error on transport failure", of the initial request as well
+                # "... and with a network error on transport failure", of the initial request as well -- whatever
+                # other requests are outstanding
                 want = [f"eb:T{idx}"] if got_first else [f"rexc:{idx}", f"eb:T{idx}"]
                 if dels != want:
                     return f"{tok}: expected {want}, got {dels}", "network-error"
@@ -242,9 +397,9 @@ def oracle_stack(script, res):
         code, mid = int(code), int(mid)
         obs = None if obs == "-" else int(obs)
         is_resp = 64 <= code < 192
-        mine = (remote == "0" and token == TOKEN and is_resp and mtype in ("CON", "NON", "ACK"))
-        if mtype == "RST" and mid == REQ_MID and remote == "0" and registered and not got_first \
-                and script["events"][0][7] is not False:
+        mine = (remote == obs_remote and token == OBS_TOKEN and is_resp and mtype in ("CON", "NON", "ACK"))
+        if mtype == "RST" and mid == OBS_MID and remote == obs_remote and registered and not got_first \
+                and s0[7] is not False:
             # Reset of the confirmable request itself
             idx = EXC_NAMES.index("MessageError")
             if dels != [f"rexc:{idx}", f"eb:T{idx}"]:
@@ -254,7 +409,10 @@ def oracle_stack(script, res):
         if not (mine and registered):
             if dels:
                 return f"{tok}: datagram not for this observation caused {dels}", "after-end"
-            if mtype == "CON" and is_resp and mcl == "0":
+            # (with other requests of the script outstanding, only what carries the observation's token from its
+            # peer is known to be unmatched here)
+            if mtype == "CON" and is_resp and mcl == "0" and \
+                    (not multi or (remote == obs_remote and token == OBS_TOKEN)):
                 want = f"RST:0:{mid}:-:-:0"
                 if not any(s.endswith(want) for s in sends):
                     return f"{tok}: unmatched confirmable response was not reset ({sends})", "no-rst"
@@ -282,7 +440,7 @@ def oracle_stack(script, res):
                 return f"{tok}: response {what} gave {dels}", "final-response"
             over, registered = True, False
             continue
-        fresh = rfc_fresher(last[0], last[1], obs, t)
+        fresh = rfc_fresher(last[0], last[1], obs, t, reset)
         if fresh:
             if dels != ["cb:" + m]:
                 return (f"{tok}: fresher than the last delivered {last} but gave {dels}"), "fresh-dropped"
